@@ -31,19 +31,22 @@ def make_world(target, prefix_len=2, hash_type='sha256', parent=None, name='c'):
 
 
 _ORIG = {}
+_MODS = {}
 
 
 def fresh_modules():
     """disk_objectstore as imported from /repo's working tree by this process, with pristine module globals."""
+    import disk_objectstore.backup_utils as B
     import disk_objectstore.container as C
     import disk_objectstore.utils as U
 
     assert os.path.realpath(C.__file__).startswith(os.environ.get('VF_REPO', '/repo') + '/'), C.__file__
+    _MODS['B'] = B
     if not _ORIG:
-        for M in (C, U):
+        for M in (C, U, B):
             _ORIG[M] = dict(M.__dict__)
     else:
-        for M in (C, U):
+        for M in (C, U, B):
             for k in [k for k in M.__dict__ if k not in _ORIG[M]]:
                 del M.__dict__[k]
             M.__dict__.update(_ORIG[M])
@@ -96,12 +99,14 @@ class ModelWorld:
         self.root = '/vroot/' + name
         if parent is None:
             self.C, self.U = fresh_modules()
+            self.B = _MODS['B']
             fs = self.fs = menv.ModelFS()
             self.dbs = {}
             menv.install(fs, self.dbs, self.C, self.U)
             self.C.Path = menv.make_path_class(fs)
         else:  # a second container in the same model environment (import source)
             self.C, self.U, fs, self.dbs = parent.C, parent.U, parent.fs, parent.dbs
+            self.B = parent.B
             self.fs = fs
         fs.dirs.add(self.root)
         for d in ('loose', 'packs', 'duplicates', 'sandbox'):
@@ -109,7 +114,7 @@ class ModelWorld:
         db = self.db = menv.ModelDB(fs, self.root + '/packs.idx')
         self.dbs[self.root + '/packs.idx'] = db
         fs.files[self.root + '/packs.idx'] = menv.Node()
-        fs.files[self.root + '/config.json'] = menv.Node(text='{}')
+        self.bclock, self.fclock, self.bevents, self.fevents, self._firing = 0, 0, [], [], False
         self.config = {
             'container_version': 1,
             'loose_prefix_len': prefix_len,
@@ -118,13 +123,88 @@ class ModelWorld:
             'container_id': 'x' + name,
             'compression_algorithm': 'zlib+1',
         }
+        # a real config file when the configuration is concrete (a copy of the container -- a backup -- can be opened)
+        import json
+
+        fs.files[self.root + '/config.json'] = menv.Node(text=json.dumps(self.config) if type(target) is int else '{}')
         self.c = self.new_handle()
         self.box = []
 
-    def new_handle(self):
-        c = self.C.Container(self.root)
-        c._config = self.config
+    def new_handle(self, root=None):
+        c = self.C.Container(root or self.root)
+        if root is None:
+            c._config = self.config
         return c
+
+    # ---- backup environment (vf/mshell.py) and its clock
+    def install_backup(self):
+        from . import mshell
+
+        mshell.install_backup(self)
+
+    def set_wal_live(self, flag):
+        """another client keeps a connection to the index open for the whole time (the -wal never goes away)"""
+        if flag:
+            self._wal_engine = self.menv.Engine(self.fs, self.db.path, self.db)
+            self._wal_engine.connect()
+
+    def db_file_rows(self, src, node):
+        """rows carried by a copy of the file ``src`` (None for ordinary files)"""
+        if src in self.dbs:
+            return [dict(r) for r in self.dbs[src].main_rows()]
+        if src.endswith('-wal') and src[:-4] in self.dbs:
+            db = self.dbs[src[:-4]]
+            if db.ckpt == len(db.versions) - 1:
+                return None  # nothing committed since the last checkpoint: an empty WAL changes nothing
+            return [dict(r) for r in db.versions[-1]]
+        return node.dbrows
+
+    def bat(self, t, fn, file_level=False):
+        (self.fevents if file_level else self.bevents).append([t, fn, False])
+
+    def _fire(self, events, clock):
+        if self._firing:
+            return
+        self._firing = True
+        try:
+            for ev in events:
+                if not ev[2] and ev[0] <= clock:
+                    ev[2] = True
+                    ev[1]()
+        finally:
+            self._firing = False
+
+    def bobserve(self):
+        if not self._firing:
+            self.bclock += 1
+            self._fire(self.bevents, self.bclock)
+
+    def fobserve(self):
+        if not self._firing:
+            self.fclock += 1
+            self._fire(self.fevents, self.fclock)
+
+    def backup_image(self, path):
+        """the backup folder read as a container, library-free (index rows as SQLite would open them)"""
+        path = str(path)
+        files = {}
+        for p, n in self.fs.files.items():
+            if p.startswith(path + '/'):
+                files[p] = n.data
+        idx = self.fs.files.get(path + '/packs.idx')
+        wal = self.fs.files.get(path + '/packs.idx-wal')
+        rows = []
+        if idx is not None and idx.dbrows is not None:
+            rows = wal.dbrows if (wal is not None and wal.dbrows is not None) else idx.dbrows
+        return ModelImage(files, [dict(r) for r in rows], self.prefix_len, path)
+
+    def backup_dest(self):
+        self.fs.dirs.add('/vbk')
+        return '/vbk/dest'
+
+    def backup_folders(self, dest):
+        pre = dest + '/'
+        return sorted(d for d in self.fs.dirs if d.startswith(pre + 'backup_') and '/' not in d[len(pre) :])
 
     # ---- contents
     def key(self, i, size):
@@ -186,6 +266,11 @@ class ModelWorld:
             if r['hashkey'] == key:
                 r[field] = r[field] + delta
 
+    def set_row(self, key, field, value):
+        for r in self.db.versions[-1]:
+            if r['hashkey'] == key:
+                r[field] = value
+
     def truncate_pack(self, pack_id, t):
         n = self.fs.files[self.root + '/packs/' + str(pack_id)]
         n.data = n.data[:t]
@@ -237,6 +322,27 @@ class ModelWorld:
 
     def reset_max_open(self):
         self.fs.max_open = self.fs.count_files()
+
+    # ---- scheduled effects of OTHER actors (timeline events on the observation clock of the actor under test)
+    def at(self, t, kind, *args):
+        """kind: 'unlink_loose' (key) -- the packer/cleaner removes a loose file (if present);
+        'put_loose' (i, size) -- another writer (re)creates a complete loose object (atomic rename)"""
+        if kind == 'unlink_loose':
+            path = ModelImage.loose_path(self, args[0])
+
+            def fn():
+                self.fs.files.pop(path, None)
+
+        else:
+            i, size = args
+
+            def fn():
+                self.put_loose(i, size)
+
+        self.fs.events.append([t, fn, False])
+
+    def clock(self):
+        return self.fs.clock
 
     # ---- crash injection
     def install_crash(self, crash_at, durable):
@@ -380,11 +486,14 @@ class _ShortRaw(io.BytesIO):
 
 
 class _TickFile:
-    """Proxy around a real file object that reports I/O-relevant calls to the world's tick()."""
+    """Proxy around a real binary write handle that reports I/O-relevant calls to the world's tick() and keeps the
+    user-space buffer itself (unbounded, like the model's): bytes reach the real file only at flush/close/seek/
+    truncate, so that a crash image or a failed flush loses exactly what the model says is lost."""
 
     def __init__(self, world, f):
         object.__setattr__(self, '_w', world)
         object.__setattr__(self, '_f', f)
+        object.__setattr__(self, '_buf', [])
 
     def __getattr__(self, name):
         return getattr(self._f, name)
@@ -398,21 +507,50 @@ class _TickFile:
     def __iter__(self):
         return iter(self._f)
 
+    def _pending(self):
+        n = 0
+        for d in self._buf:
+            n += len(d)
+        return n
+
     def write(self, data):
         self._w.tick(('write', self._f.name))
-        return self._f.write(data)
+        self._buf.append(bytes(data))
+        return len(data)
+
+    def _drain(self):
+        data = b''.join(self._buf)
+        del self._buf[:]
+        self._f.write(data)
+        self._f.flush()
 
     def flush(self):
-        self._w.tick(('flush', self._f.name))
-        return self._f.flush()
+        if self._buf:
+            self._w.tick(('flush', self._f.name))  # a fault here leaves the data in the buffer, as CPython does
+            self._drain()
+
+    def tell(self):
+        return self._f.tell() + self._pending()
+
+    def seek(self, *a):
+        self.flush()
+        return self._f.seek(*a)
 
     def truncate(self, *a):
+        self.flush()
         self._w.tick(('truncate', self._f.name))
         return self._f.truncate(*a)
 
     def close(self):
-        if not self._f.closed and 'r' not in self._f.mode:
-            self._w.tick(('close', self._f.name))
+        if not self._f.closed and self._buf:
+            try:
+                self._w.tick(('flush', self._f.name))
+            except BaseException:
+                # CPython: a failing flush inside close() still closes the descriptor; the buffered bytes are lost
+                del self._buf[:]
+                self._f.close()
+                raise
+            self._drain()
         return self._f.close()
 
 
@@ -450,8 +588,11 @@ class RealWorld(RealImage):
     def __init__(self, target, prefix_len, hash_type, parent=None, name='c'):
         if parent is None:
             self.C, self.U = fresh_modules()
+            self.B = _MODS['B']
         else:
-            self.C, self.U = parent.C, parent.U
+            self.C, self.U, self.B = parent.C, parent.U, parent.B
+        self.bclock, self.fclock, self.bevents, self.fevents, self._firing = 0, 0, [], [], False
+        self._wal_handle = None
         base = os.environ.get('VF_SCRATCH') or tempfile.gettempdir()
         self.base = tempfile.mkdtemp(prefix='vf-replay-', dir=base)
         folder = os.path.join(self.base, name)
@@ -471,8 +612,72 @@ class RealWorld(RealImage):
         self.monitor_ok = True
         self._monitor = False
 
-    def new_handle(self):
-        return self.C.Container(self.folder)
+    def new_handle(self, root=None):
+        return self.C.Container(root or self.folder)
+
+    # ---- backup: the real rsync / sqlite3; only the clock is instrumented (same numbering as the model shell)
+    def install_backup(self):
+        import sqlite3 as _sqlite3
+        import subprocess as _subprocess
+
+        w = self
+        live = os.path.join(self.folder, 'packs.idx')
+
+        class Sub:
+            def __getattr__(self, name):
+                return getattr(_subprocess, name)
+
+            @staticmethod
+            def run(*a, **kw):
+                w.bobserve()
+                return _subprocess.run(*a, **kw)
+
+        class Sql:
+            def __getattr__(self, name):
+                return getattr(_sqlite3, name)
+
+            @staticmethod
+            def connect(path, *a, **kw):
+                if str(path) == live:
+                    w.bobserve()
+                return _sqlite3.connect(path, *a, **kw)
+
+        self.B.subprocess = Sub()
+        self.B.sqlite3 = Sql()
+
+    def set_wal_live(self, flag):
+        if flag and self._wal_handle is None:
+            self._wal_handle = self.new_handle()
+            self._wal_handle.has_objects(['0' * 64])  # a query: the connection (and with it the -wal) stays open
+
+    def bat(self, t, fn, file_level=False):
+        if not file_level:  # events inside a transfer cannot be forced on the real rsync
+            self.bevents.append([t, fn, False])
+
+    def bobserve(self):
+        if self._firing:
+            return
+        self.bclock += 1
+        self._firing = True
+        try:
+            for ev in self.bevents:
+                if not ev[2] and ev[0] <= self.bclock:
+                    ev[2] = True
+                    ev[1]()
+        finally:
+            self._firing = False
+
+    def fobserve(self):
+        pass
+
+    def backup_image(self, path):
+        return RealImage(str(path), self.prefix_len)
+
+    def backup_dest(self):
+        return os.path.join(self.base, 'dest')
+
+    def backup_folders(self, dest):
+        return sorted(os.path.join(dest, d) for d in os.listdir(dest) if d.startswith('backup_'))
 
     def key(self, i, size):
         return hashlib.new(self.hash_type, real_bytes(i, size)).hexdigest()
@@ -528,6 +733,12 @@ class RealWorld(RealImage):
     def update_row(self, key, field, delta):
         con = sqlite3.connect(os.path.join(self.folder, 'packs.idx'))
         con.execute('UPDATE db_object SET "%s" = "%s" + ? WHERE hashkey = ?' % (field, field), (delta, key))
+        con.commit()
+        con.close()
+
+    def set_row(self, key, field, value):
+        con = sqlite3.connect(os.path.join(self.folder, 'packs.idx'))
+        con.execute('UPDATE db_object SET "%s" = ? WHERE hashkey = ?' % field, (value, key))
         con.commit()
         con.close()
 
@@ -640,6 +851,81 @@ class RealWorld(RealImage):
 
         self.C.get_session = get_session
 
+    # ---- scheduled effects of other actors: the same events, applied on the real file system when the real code
+    # makes its t-th path-level call (open / os.* / Path.exists|stat|is_file) -- a deterministic schedule replay
+    def at(self, t, kind, *args):
+        self._instrument_clock()
+        if kind == 'unlink_loose':
+            path = self.loose_path(args[0])
+
+            def fn():
+                try:
+                    os.remove(path)
+                except FileNotFoundError:
+                    pass
+
+        else:
+            i, size = args
+
+            def fn():
+                self.put_loose(i, size)
+
+        self._events.append([t, fn, False])
+
+    def clock(self):
+        return self._clock
+
+    def observe(self):
+        self._clock += 1
+        for ev in self._events:
+            if not ev[2] and ev[0] <= self._clock:
+                ev[2] = True
+                ev[1]()
+
+    def _instrument_clock(self):
+        if getattr(self, '_events', None) is not None:
+            return
+        import pathlib
+
+        self._events, self._clock = [], 0
+        w = self
+        self.c.close()
+
+        class OPath(pathlib.PosixPath):
+            def exists(self, *a, **kw):
+                w.observe()
+                return pathlib.PosixPath.exists(self, *a, **kw)
+
+            def is_file(self, *a, **kw):
+                w.observe()
+                return pathlib.PosixPath.is_file(self, *a, **kw)
+
+            def stat(self, *a, **kw):
+                w.observe()
+                return pathlib.PosixPath.stat(self, *a, **kw)
+
+        class OOS:
+            def __getattr__(self, name):
+                v = getattr(os, name)
+                if name in ('listdir', 'remove', 'unlink', 'rename', 'replace', 'link', 'mkdir', 'makedirs', 'stat'):
+
+                    def f(*a, **kw):
+                        w.observe()
+                        return v(*a, **kw)
+
+                    return f
+                return v
+
+        def oopen(path, mode='r', *a, **kw):
+            w.observe()
+            return io.open(path, mode, *a, **kw)
+
+        for M in (self.C, self.U):
+            M.os = OOS()
+            M.open = oopen
+            M.Path = OPath
+        self.c = self.new_handle()
+
     def install_crash(self, crash_at, durable):
         self.c.close()
         self._instrument()
@@ -710,8 +996,10 @@ class RealWorld(RealImage):
             self._post_commit_check()
 
     def cleanup(self):
-        try:
-            self.c.close()
-        except Exception:
-            pass
+        for c in (self.c, self._wal_handle):
+            try:
+                if c is not None:
+                    c.close()
+            except Exception:
+                pass
         shutil.rmtree(self.base, ignore_errors=True)
